@@ -40,8 +40,55 @@ def eacc : Expr → List Ev
   | .un _ e => eacc e
   | .bin _ a b => eacc a ++ eacc b
 
+/-- MiniF statements plus `DO WHILE` (PSyIR `WhileLoop`), which `MiniF.Stmt` lacks -/
+inductive RStmt where
+  | skip
+  | seq (a b : RStmt)
+  | assign (x : Nat) (e : Expr)
+  | store1 (a : Nat) (i : Expr) (e : Expr)
+  | store2 (a : Nat) (i j : Expr) (e : Expr)
+  | ite (c : Expr) (t f : RStmt)
+  | loop (v : Nat) (lo hi step : Expr) (body : RStmt)
+  | whileDo (c : Expr) (body : RStmt)
+  deriving DecidableEq, Repr, Inhabited
+
+/-- `DO WHILE (c) body`: the condition is evaluated before every iteration; at most `n`
+iterations (fuel — the theorems hold for every fuel, the drivers use a bound no generated
+loop reaches) -/
+def whileN (c : Expr) (f : Store → Store) : Nat → Store → Store
+  | 0, σ => σ
+  | n+1, σ => if eval c σ ≠ 0 then whileN c f n (f σ) else σ
+
+/-- execution; agrees with `MiniF.exec` on the common part (`rexec_ofStmt`) -/
+def rexec (fuel : Nat) : RStmt → Store → Store
+  | .skip, σ => σ
+  | .seq a b, σ => rexec fuel b (rexec fuel a σ)
+  | .assign x e, σ => σ.set (x, 0, 0) (eval e σ)
+  | .store1 a i e, σ => σ.set (a, eval i σ, 0) (eval e σ)
+  | .store2 a i j e, σ => σ.set (a, eval i σ, eval j σ) (eval e σ)
+  | .ite c t f, σ => if eval c σ ≠ 0 then rexec fuel t σ else rexec fuel f σ
+  | .loop v lo hi step body, σ =>
+      runIters (rexec fuel body) v (eval lo σ) (eval step σ)
+        (trip (eval lo σ) (eval hi σ) (eval step σ)) 0 σ
+  | .whileDo c body, σ => whileN c (rexec fuel body) fuel σ
+
+def ofStmt : Stmt → RStmt
+  | .skip => .skip
+  | .seq a b => .seq (ofStmt a) (ofStmt b)
+  | .assign x e => .assign x e
+  | .store1 a i e => .store1 a i e
+  | .store2 a i j e => .store2 a i j e
+  | .ite c t f => .ite c (ofStmt t) (ofStmt f)
+  | .loop v lo hi st b => .loop v lo hi st (ofStmt b)
+
+/-- sequence of a statement list (as `MiniF.seqs`) -/
+def rseqs : List RStmt → RStmt
+  | [] => .skip
+  | [s] => s
+  | s :: rest => .seq s (rseqs rest)
+
 /-- ordered access list of a statement (what `VariablesAccessInfo` collects) -/
-def sacc : Stmt → List Ev
+def sacc : RStmt → List Ev
   | .skip => []
   | .seq a b => sacc a ++ sacc b
   | .assign x e => eacc e ++ [⟨x, true, false⟩]
@@ -50,9 +97,10 @@ def sacc : Stmt → List Ev
   | .ite c t f => eacc c ++ (sacc t ++ sacc f)
   | .loop v lo hi st b =>
       ⟨v, true, false⟩ :: ⟨v, false, false⟩ :: (eacc lo ++ (eacc hi ++ (eacc st ++ sacc b)))
+  | .whileDo c b => eacc c ++ sacc b      -- `WhileLoop.reference_accesses`: condition, then body
 
 /-- access summary of a region given as a list of consecutive statements -/
-def accSummary (region : List Stmt) : List Ev := sacc (seqs region)
+def accSummary (region : List RStmt) : List Ev := sacc (rseqs region)
 
 /-! ## `SingleVariableAccessInfo` queries -/
 
@@ -83,10 +131,10 @@ def inputsE (evs : List Ev) : List Nat := (varsOf evs).filter (fun x => !written
 /-- `get_output_parameters`: every signature that is written -/
 def outputsE (evs : List Ev) : List Nat := (varsOf evs).filter (isWritten evs)
 
-def inputs (s : Stmt) : List Nat := inputsE (sacc s)
-def outputs (s : Stmt) : List Nat := outputsE (sacc s)
+def inputs (s : RStmt) : List Nat := inputsE (sacc s)
+def outputs (s : RStmt) : List Nat := outputsE (sacc s)
 /-- `get_in_out_parameters(region)` -/
-def inOut (region : List Stmt) : List Nat × List Nat := (inputs (seqs region), outputs (seqs region))
+def inOut (region : List RStmt) : List Nat × List Nat := (inputs (rseqs region), outputs (rseqs region))
 
 /-! ### regions of calls (`collect_non_local_symbols=True`)
 
@@ -97,13 +145,13 @@ writes it, and an input iff in some routine its first access is not a write.  Th
 summaries are merged as sets — the order of the calls plays no role.  `G` are the non-local
 variables (callee locals and arguments are not reported by this path). -/
 
-def unionMap (f : Stmt → List Nat) : List Stmt → List Nat
+def unionMap (f : RStmt → List Nat) : List RStmt → List Nat
   | [] => []
   | b :: r => f b ++ unionMap f r
 
-def inputsCalls (G : List Nat) (bodies : List Stmt) : List Nat :=
+def inputsCalls (G : List Nat) (bodies : List RStmt) : List Nat :=
   (dedup (unionMap inputs bodies)).filter G.contains
-def outputsCalls (G : List Nat) (bodies : List Stmt) : List Nat :=
+def outputsCalls (G : List Nat) (bodies : List RStmt) : List Nat :=
   (dedup (unionMap outputs bodies)).filter G.contains
 
 /-! ### the decidable side conditions of the partial theorems
@@ -118,7 +166,7 @@ def okEv (K D : List Nat) (e : Ev) : Bool :=
 
 def okE (K D : List Nat) (e : Expr) : Bool := (eacc e).all (okEv K D)
 
-def chk (K : List Nat) : Stmt → List Nat → Option (List Nat)
+def chk (K : List Nat) : RStmt → List Nat → Option (List Nat)
   | .skip, D => some D
   | .seq a b, D => (chk K a D).bind (chk K b)
   | .assign x e, D => if okE K D e then some (x :: D) else none
@@ -129,23 +177,24 @@ def chk (K : List Nat) : Stmt → List Nat → Option (List Nat)
   | .loop v lo hi st b, D =>
       if okE K D lo && okE K D hi && okE K D st && (chk K b (v :: D)).isSome
       then some (v :: D) else none
+  | .whileDo c b, D => if okE K D c && (chk K b D).isSome then some D else none
 
 /-- every variable whose first access is a write and that is read afterwards is a scalar
 assigned unconditionally (earlier in an enclosing sequence, or as a loop variable) before
 each of those reads -/
-def WholeFirstWrites (s : Stmt) : Prop := (chk (inputs s) s []).isSome = true
+def WholeFirstWrites (s : RStmt) : Prop := (chk (inputs s) s []).isSome = true
 
-instance (s : Stmt) : Decidable (WholeFirstWrites s) := by unfold WholeFirstWrites; exact inferInstance
+instance (s : RStmt) : Decidable (WholeFirstWrites s) := by unfold WholeFirstWrites; exact inferInstance
 
 /-- additionally every output is either an input or such a scalar defined unconditionally at
 the top level of the region (so that the *whole* recorded output is determined by the inputs) -/
-def outDefined (s : Stmt) : Bool :=
+def outDefined (s : RStmt) : Bool :=
   match chk (inputs s) s [] with
   | some D => (outputs s).all (fun x => (inputs s).contains x || (D.contains x && !isArr (sacc s) x))
   | none => false
 
-def OutputsDefined (s : Stmt) : Prop := outDefined s = true
-instance (s : Stmt) : Decidable (OutputsDefined s) := by unfold OutputsDefined; exact inferInstance
+def OutputsDefined (s : RStmt) : Prop := outDefined s = true
+instance (s : RStmt) : Decidable (OutputsDefined s) := by unfold OutputsDefined; exact inferInstance
 
 /-! ## C13: data-movement clauses -/
 
@@ -176,17 +225,17 @@ def clausesE (evs : List Ev) : Clauses :=
     cout := (arraysE evs).filter (fun x => clauseOf evs x == .copyout)
     cpy := (arraysE evs).filter (fun x => clauseOf evs x == .copy) }
 
-def arrays (s : Stmt) : List Nat := arraysE (sacc s)
-def clauses (s : Stmt) : Clauses := clausesE (sacc s)
+def arrays (s : RStmt) : List Nat := arraysE (sacc s)
+def clauses (s : RStmt) : Clauses := clausesE (sacc s)
 
 /-- region items as seen by `ACCDataTrans.validate`: a MiniF statement, or a top-level node
 that is or contains (`walk`) a node of an excluded type (`CodeBlock`, `Return`, `PSyDataNode`) -/
 inductive Item where
-  | stmt (s : Stmt)
+  | stmt (s : RStmt)
   | excluded
   deriving Repr, Inhabited
 
-def itemsStmt : List Item → List Stmt
+def itemsStmt : List Item → List RStmt
   | [] => []
   | .stmt s :: r => s :: itemsStmt r
   | .excluded :: r => itemsStmt r
@@ -196,12 +245,24 @@ def hasExcluded : List Item → Bool
   | .stmt _ :: r => hasExcluded r
   | .excluded :: _ => true
 
+/-- plain `get_in_out_parameters` on a node list that contains CodeBlocks: `CodeBlock` has no
+`reference_accesses` of its own, so whatever a CodeBlock reads or writes is invisible — a
+statement CodeBlock contributes nothing (an expression CodeBlock inside a statement is
+exported as a literal, i.e. also contributes nothing) -/
+def inOutItems (items : List Item) : List Nat × List Nat := inOut (itemsStmt items)
+
+/-- `ExtractTrans.apply` (+ `ExtractNode` lowering): `none` = `TransformationError` — among the
+generated inputs: a node that is or contains a CodeBlock / Return; otherwise the recorded
+input and output lists -/
+def extractTrans (items : List Item) : Option (List Nat × List Nat) :=
+  if hasExcluded items then none else some (inOutItems items)
+
 /-- `ACCDataTrans.apply`: `none` = `TransformationError` (empty node list, an excluded node
 type, or the routine already has an `enter data` directive); otherwise the clauses of the
 created directive -/
 def accDataTrans (hasEnterData : Bool) (items : List Item) : Option Clauses :=
   if items.isEmpty || hasExcluded items || hasEnterData then none
-  else some (clauses (seqs (itemsStmt items)))
+  else some (clauses (rseqs (itemsStmt items)))
 
 /-! ### execution with separate device memory
 
@@ -225,18 +286,18 @@ def hostFinal (c : Clauses) (arrs : List Nat) (σ d : Store) : Store :=
 
 /-- entry: allocate (contents `γ`), then `copyin`/`copy` host→device; run the region on the
 device store; exit: `copyout`/`copy` device→host, element by element, whatever the device holds -/
-def execACC (c : Clauses) (s : Stmt) (σ γ : Store) : Store :=
-  hostFinal c (arrays s) σ (exec s (devInit c (arrays s) σ γ))
+def execACC (fuel : Nat) (c : Clauses) (s : RStmt) (σ γ : Store) : Store :=
+  hostFinal c (arrays s) σ (rexec fuel s (devInit c (arrays s) σ γ))
 
 /-- no touched array is classified `copyout` (never read, or textually written first): in
 MiniF arrays are unbounded and only element stores exist, so a region never defines a whole
 array; the condition therefore asks every touched array to be read-only or first read -/
-def FullyWrittenOrRead (s : Stmt) : Prop := (clauses s).cout = []
-instance (s : Stmt) : Decidable (FullyWrittenOrRead s) := by unfold FullyWrittenOrRead; exact inferInstance
+def FullyWrittenOrRead (s : RStmt) : Prop := (clauses s).cout = []
+instance (s : RStmt) : Decidable (FullyWrittenOrRead s) := by unfold FullyWrittenOrRead; exact inferInstance
 
 /-- weaker: arrays may be `copyout`, but none of those is read in the region -/
-def copyoutNotRead (s : Stmt) : Bool := (clauses s).cout.all (fun x => !isRead (sacc s) x)
-def CopyoutNotRead (s : Stmt) : Prop := copyoutNotRead s = true
-instance (s : Stmt) : Decidable (CopyoutNotRead s) := by unfold CopyoutNotRead; exact inferInstance
+def copyoutNotRead (s : RStmt) : Bool := (clauses s).cout.all (fun x => !isRead (sacc s) x)
+def CopyoutNotRead (s : RStmt) : Prop := copyoutNotRead s = true
+instance (s : RStmt) : Decidable (CopyoutNotRead s) := by unfold CopyoutNotRead; exact inferInstance
 
 end RegionData
